@@ -38,10 +38,10 @@ CONSTANTS = {
         # are about.  Each regex spells the expression out and then captures the next number in the
         # file (the value is irrelevant); any edit of the expression makes the item LOST, which
         # breaks the obligation `source_shapes_present`.
-        ("SHAPE_UPSCALE_INFALLIBLE", _CD, r"let is_infallible_cast = \(input_precision as i8\) \+ delta_scale <= \(output_precision as i8\);\s*let f_infallible = is_infallible_cast\s*\.then_some\(move \|x\| O::Native::from_decimal\(x\)\.unwrap\(\)\.mul_wrapping\(mul\)\);[\s\S]*?(\d+)", "int"),
+        ("SHAPE_UPSCALE_INFALLIBLE", _CD, r"let is_infallible_cast = std::mem::size_of::<I::Native>\(\) <= std::mem::size_of::<O::Native>\(\)\s*&& \(input_precision as i16\) \+ \(delta_scale as i16\) <= \(output_precision as i16\);\s*let f_infallible = is_infallible_cast\s*\.then_some\(move \|x\| O::Native::from_decimal\(x\)\.unwrap\(\)\.mul_wrapping\(mul\)\);[\s\S]*?(\d+)", "int"),
         ("SHAPE_UPSCALE_FALLIBLE", _CD, r"let f_fallible = move \|x\| O::Native::from_decimal\(x\)\?\.mul_checked\(mul\)\.ok\(\);[\s\S]*?(\d+)", "int"),
         ("SHAPE_DOWNSCALE_ROUND", _CD, r"let d = x\.div_wrapping\(div\);\s*let r = x\.mod_wrapping\(div\);\s*// Round result\s*let adjusted = match x >= I::Native::ZERO \{\s*true if r >= half => d\.add_wrapping\(I::Native::ONE\),\s*false if r <= half_neg => d\.sub_wrapping\(I::Native::ONE\),\s*_ => d,\s*\};\s*O::Native::from_decimal\(adjusted\)[\s\S]*?(\d+)", "int"),
-        ("SHAPE_DOWNSCALE_INFALLIBLE", _CD, r"let is_infallible_cast = \(input_precision as i8\) - delta_scale < \(output_precision as i8\);\s*let f_infallible = is_infallible_cast\.then_some\(move \|x\| f_fallible\(x\)\.unwrap\(\)\);[\s\S]*?(\d+)", "int"),
+        ("SHAPE_DOWNSCALE_INFALLIBLE", _CD, r"let is_infallible_cast = std::mem::size_of::<I::Native>\(\) <= std::mem::size_of::<O::Native>\(\)\s*&& \(input_precision as i16\) - \(delta_scale as i16\) < \(output_precision as i16\);\s*let f_infallible = is_infallible_cast\.then_some\(move \|x\| f_fallible\(x\)\.unwrap\(\)\);[\s\S]*?(\d+)", "int"),
         ("SHAPE_DOWNSCALE_HALF", _CD, r"let div = max\.add_wrapping\(I::Native::ONE\);\s*let half = div\.div_wrapping\(I::Native::ONE\.add_wrapping\(I::Native::ONE\)\);\s*let half_neg = half\.neg_wrapping\(\);[\s\S]*?(\d+)", "int"),
         ("SHAPE_APPLY_DECIMAL_CAST", _CD, r"let array = if let Some\(f_infallible\) = f_infallible \{\s*array\.unary\(f_infallible\)\s*\} else if cast_options\.safe \{\s*array\.unary_opt\(\|x\| \{\s*f_fallible\(x\)\.filter\(\|v\| O::is_valid_decimal_precision\(\*v, output_precision\)\)\s*\}\)\s*\} else \{[\s\S]*?array\.try_unary\(\|x\| \{\s*let v = f_fallible\(x\)\.ok_or_else\(\|\| error\(x\)\)\?;\s*O::validate_decimal_precision\(v, output_precision, output_scale\)\.map\(\|\(\)\| v\)[\s\S]*?(\d+)", "int"),
         ("SHAPE_SAME_TYPE_SHORTCUT", _CD, r"if input_scale == output_scale && input_precision <= output_precision \{\s*array\.clone\(\)\s*\} else if input_scale <= output_scale \{[\s\S]*?(\d+)", "int"),
